@@ -312,6 +312,15 @@ func c20Singles() []c20Spec {
 		add(`{ print "before"; hist[3] = 0; hist[`+idx+`]++; print "after" }`+"\x02"+`[{"bucket": "NaN"}]`, "REFUSED")
 	}
 	add(`function bump(num) { return num + 1 } function walk(n) { if (n == 0) { return bump(num("41")) } return walk(n - 1) } BEGIN { print "before"; print walk(0), walk(60), walk(100), walk(1000), walk(4000) }`, "before\n42 42 42 42 42\n")
+	// the recursive call sits deep inside one expression or statement nest: the frames are few, the nesting inside them is not
+	// (repair row 30: before it these ended in Go's stack limit)
+	for _, nest := range [][2]string{{strings.Repeat("1 + (", 100), strings.Repeat(")", 100)}, {strings.Repeat("[", 60), strings.Repeat("]", 60) + strings.Repeat("[0]", 60)}, {strings.Repeat("id(", 200), strings.Repeat(")", 200)}, {strings.Repeat("1 + (", 1000), strings.Repeat(")", 1000)}} {
+		add(`function id(x) { return x } function r(n) { return `+nest[0]+`r(n + 1)`+nest[1]+` } BEGIN { print "before"; r(0); print "after" }`, "REFUSED")
+	}
+	add(`function r(n) { `+strings.Repeat("if (1) { ", 150)+`r(n + 1)`+strings.Repeat(" }", 150)+` } BEGIN { print "before"; r(0); print "after" }`, "REFUSED")
+	add(`function r(n) { `+strings.Repeat("for (v in [1]) { ", 300)+`r(n + 1)`+strings.Repeat(" }", 300)+` } BEGIN { print "before"; r(0); print "after" }`, "REFUSED")
+	add(`function r(n) { if (n <= 0) return 0; return 1 + `+strings.Repeat("(0 + ", 20)+`r(n - 1)`+strings.Repeat(")", 20)+` } BEGIN { print "before"; print r(4000) }`, "before\n4000\n")
+	add(`BEGIN { print "before"; print `+strings.Repeat("(1 + ", 100000)+`0`+strings.Repeat(")", 100000)+` }`, "before\n100000\n")
 	// a width beyond the maximum in the second / third directive, after directives within it
 	for _, f := range []string{`"%%-8s %%%ds|"`, `"%%3f%%%dv"`, `"%%5s%%-%ds"`, `"%%s %%s %%0%df"`} {
 		for _, w := range []string{"65537", "70000", "99999999999"} {
@@ -374,13 +383,45 @@ func c20Single(c *fw.Ctx, s c20Spec) *fw.Violation {
 	return &fw.Violation{What: "limit case: " + why, Detail: map[string]any{"program": clip(s.Prog), "want": clip(want), "outcome": last}}
 }
 
+// c20OneLimit: the limit is one limit on frames, whatever opens them. Every level of "direct recursion" opens one frame, of
+// "recursion through a match body" two (the call and the arm), of "two nested match arms" three: the refusal points must give
+// the same number of frames (within the few frames the entry adds).
+func c20OneLimit(c *fw.Ctx) *fw.Violation {
+	per := map[string]int{"direct recursion": 1, "mutual recursion of three": 1, "recursion through a match body": 2, "recursion through two nested match arms": 3, "recursion through an argument": 1, "recursion through a for-in body": 1}
+	lo, hi, loName, hiName := 1<<30, 0, "", ""
+	got := map[string]int{}
+	for fi, f := range c20Families() {
+		k, ok := per[f.name]
+		if !ok {
+			continue
+		}
+		t, v := c20Threshold(c, fi)
+		if v != nil {
+			return v
+		}
+		frames := t * k
+		got[f.name] = frames
+		if frames < lo {
+			lo, loName = frames, f.name
+		}
+		if frames > hi {
+			hi, hiName = frames, f.name
+		}
+	}
+	c.State(fmt.Sprintf("frames at the refusal point: between %d and %d over %d shapes", lo, hi, len(got)))
+	if hi-lo > 8 {
+		return &fw.Violation{What: fmt.Sprintf("the nesting limit is not one limit: %q is refused at about %d frames, %q at about %d", loName, lo, hiName, hi), Detail: map[string]any{"frames at the refusal point": got}}
+	}
+	return nil
+}
+
 func init() {
 	nf := len(c20Families())
 	register(&fw.Prop{
 		ID: "C20",
 		Rule: "one-dimensional sweeps across each limit on the real binary in a child process under ulimit -v: recursion depth for 13 shapes (inside a right-nested expression, inside literals / loops / conditionals, direct, mutual of two and three, through a match body, an argument, a for-in body, from a pattern rule, from BEGINFILE, entered from inside a match arm, through two nested arms, through block-bodied arms), array store index directly, through a nested pending path and on an array that already has elements, printf width of both signs, JSON array and object nesting (read only, printed whole + serialised with json(), under programs of BEGIN / END rules only, under a root selector); " +
 			"the refusal point is found by bisection, must lie in the documented range (a few thousand frames; about a million; exactly 65536; the decoder's limit) and the sweep checks monotonicity: the exact value below it, an ordinary runtime / JSON error with the earlier output kept and a small exit status from it on; " +
-			"plus single cases: index magnitudes 2^k and 2^k +- 1 up to 2^62, 2^63, 2^64, 10^300, reads past the limit, negative and fractional indices, unbounded recursion of four shapes, 20-digit widths, and the things that must still work (a width of a few thousand, a thousand-element array, recursion a thousand deep, match expressions nested in root selectors); states = refusal points found; non-trivial = same",
+			"the refusal points of six recursion shapes must amount to the same number of frames (one frame per level of a direct recursion, two per level through a match body, three through two nested arms); plus single cases: index magnitudes 2^k and 2^k +- 1 up to 2^62, 2^63, 2^64, 10^300, reads past the limit, negative and fractional indices, unbounded recursion of four shapes, 20-digit widths, and the things that must still work (a width of a few thousand, a thousand-element array, recursion a thousand deep, match expressions nested in root selectors); states = refusal points found; non-trivial = same",
 		Plan: func(t fw.Tier) int { return nf*8 + 1 },
 		Bound: func(t fw.Tier) string {
 			if t == fw.Thorough {
@@ -394,6 +435,7 @@ func init() {
 			c20Ctx = c
 			defer os.RemoveAll(filepath.Join(fw.WorkDir(), fmt.Sprintf("c20-%d", os.Getpid())))
 			if u == nf*8 {
+				c.Do(func() any { return c20Spec{Form: "onelimit"} }, func() *fw.Violation { return c20OneLimit(c) })
 				for _, s := range c20Singles() {
 					s := s
 					c.Do(func() any { return s }, func() *fw.Violation { return c20Single(c, s) })
@@ -487,6 +529,8 @@ func init() {
 			switch s.Form {
 			case "single":
 				return c20Single(c, s)
+			case "onelimit":
+				return c20OneLimit(c)
 			case "threshold":
 				_, v := c20Threshold(c, s.Family)
 				return v
